@@ -57,7 +57,7 @@ private theorem ex_mem (i a : Nat) (hi : i < 2) (h : a ∈ exPattern.sntree.cliq
   unfold SPattern.cliqueO
   rw [exPattern.mem_sortO]
   refine ⟨a, h, ?_⟩
-  have : a < 3 := exTree_valid.clique_lt i hi a h
+  have : a < 3 := exTreeV_valid.clique_lt i hi a h
   have : a = 0 ∨ a = 1 ∨ a = 2 := by omega
   rcases this with rfl | rfl | rfl <;> rfl
 
